@@ -344,7 +344,9 @@ func (conn *Conn) read(ctx *Context, async bool) {
 		if ctx.Error == shutdownMsg {
 			call.Error = ErrShutdown
 		} else {
-			call.Error = errors.New(ctx.Error)
+			// ctx.Error may alias the pooled read buffer (the pb and code
+			// header decoders return zero-copy strings): copy it.
+			call.Error = errors.New(string([]byte(ctx.Error)))
 		}
 		err = conn.codec.ReadResponseBody(nil, nil)
 		if err != nil {
